@@ -52,6 +52,15 @@ CLAIMS["C10"] = {
     "design_ref": "DESIGN.md §5 C10",
 }
 
+CLAIMS["C11"] = {
+    "technique": "static analysis: dominance / avoid-set reachability in error_handler, call_heart_beat and destruct_object, who-may-write on current_heart_beat, bounded-index idioms on heart_beats[]",
+    "text": "Decides fault locality and list hygiene structurally: on the uncaught-error path error_handler switches off exactly current_heart_beat and clears it before jumping, nothing else writes that variable, "
+            "call_heart_beat publishes the object before calling it and clears it before reset/call_out run; destruct_object removes the heart beat before marking the object destructed; "
+            "every heart_beats[] subscript except the round-robin cursor is bounded by the list length and the growth site grows. "
+            "'Exactly once every n ticks' under enable/disable histories (index compensation) is not decided; the cursor subscript is reported as undecided.",
+    "design_ref": "DESIGN.md §5 C11",
+}
+
 NOT_APPLICABLE = {
     "C18": "Line/trace correctness is a value-level question about run-length tables (encode in the code generator, decode in find_line); no clause of it is visible in the shape of the code, so static analysis gives no verdict (DESIGN.md §6).",
 }
